@@ -60,7 +60,7 @@ def h06a_shards(tier):
     out = []
     for i, a in enumerate(shapes):
         for b in shapes:
-            out.append({"a": a, "b": b, "_timeout": 300, "_path_timeout": 60})
+            out.append({"a": a, "b": b, "_timeout": 300 if sum(a) + sum(b) < 7 else 3000, "_path_timeout": 60})
     return out
 
 
